@@ -5,6 +5,7 @@ import ast
 import struct
 
 from ..cfg import CFG
+from ..core import ordkey
 from ..core import AnalysisError, NotConst, call_name, calls_in, dotted, func_params, norm, qualname_of, walk_no_nested
 
 PROPERTY = "C04"
@@ -121,7 +122,7 @@ def run(ctx):
     prefix_read = None
     for st in walk_no_nested(rd):
         if isinstance(st, ast.Assign) and norm(st.targets[0]) == pvar and isinstance(st.value, ast.Call) and isinstance(st.value.func, ast.Attribute) \
-                and st.value.func.attr == "read" and st.lineno <= ucall.lineno:
+                and st.value.func.attr == "read" and ordkey(st) <= ordkey(ucall):
             prefix_read = st
             break
     ok = prefix_read is not None and _fold(prog, stream_m, prefix_read.value.args[0]) == n
@@ -206,7 +207,7 @@ def run(ctx):
     else:
         ctx.fail("R4.4", "write:pack", "pack() call not found", wr, key="R4.4:write:no-pack")
     if len(fpw) == 2:
-        a, b = sorted(fpw, key=lambda c: (c.lineno, c.col_offset))
+        a, b = sorted(fpw, key=ordkey)
         from ..core import single_assign_aliases
 
         psites = [c0 for c0, _, _ in struct_sites(prog, wr, "pack")]
@@ -295,7 +296,7 @@ def run(ctx):
                 if tgt:
                     for c2 in calls_in(fn):
                         pr = prog.resolve_expr(base, c2.func)
-                        if getattr(pr, "name", None) in WRAPPERS and any(isinstance(a, ast.Name) and a.id == tgt for a in c2.args) and c2.lineno > c.lineno:
+                        if getattr(pr, "name", None) in WRAPPERS and any(isinstance(a, ast.Name) and a.id == tgt for a in c2.args) and ordkey(c2) > ordkey(c):
                             # only a violation if it is reachable after the decompressor assignment without re-testing for `peek`
                             fcfg = CFG(fn)
                             facts = {(t, pol) for t, pol, _ in fcfg.facts_at(fcfg.node_of(c2).id)}
